@@ -32,6 +32,13 @@ type KeyObject struct {
 	locked bool
 }
 
+// bulkString encodes a stored value as a RESP bulk string. Stored values can hold any bytes
+// (CR, LF, a leading '+' or '-'), which a simple string cannot carry.
+func bulkString(value interface{}) []byte {
+	s := fmt.Sprintf("%v", value)
+	return []byte(fmt.Sprintf("$%d\r\n%s\r\n", len(s), s))
+}
+
 func handleSet(params internal.HandlerFuncParams) ([]byte, error) {
 	keys, err := setKeyFunc(params.Command)
 	if err != nil {
@@ -55,7 +62,7 @@ func handleSet(params internal.HandlerFuncParams) ([]byte, error) {
 		if !keyExists {
 			res = []byte("$-1\r\n")
 		} else {
-			res = []byte(fmt.Sprintf("+%v\r\n", params.GetValues(params.Context, []string{key})[key]))
+			res = bulkString(params.GetValues(params.Context, []string{key})[key])
 		}
 	}
 
@@ -122,7 +129,7 @@ func handleGet(params internal.HandlerFuncParams) ([]byte, error) {
 
 	value := params.GetValues(params.Context, []string{key})[key]
 
-	return []byte(fmt.Sprintf("+%v\r\n", value)), nil
+	return bulkString(value), nil
 }
 
 func handleMGet(params internal.HandlerFuncParams) ([]byte, error) {
@@ -694,7 +701,7 @@ func handleRandomkey(params internal.HandlerFuncParams) ([]byte, error) {
 
 	key := params.Randomkey(params.Context)
 
-	return []byte(fmt.Sprintf("+%v\r\n", key)), nil
+	return bulkString(key), nil
 }
 
 func handleGetdel(params internal.HandlerFuncParams) ([]byte, error) {
@@ -716,7 +723,7 @@ func handleGetdel(params internal.HandlerFuncParams) ([]byte, error) {
 		return nil, err
 	}
 
-	return []byte(fmt.Sprintf("+%v\r\n", value)), nil
+	return bulkString(value), nil
 }
 
 func handleGetex(params internal.HandlerFuncParams) ([]byte, error) {
@@ -740,7 +747,7 @@ func handleGetex(params internal.HandlerFuncParams) ([]byte, error) {
 
 	// Handle no expire options provided
 	if cmdLen == 2 {
-		return []byte(fmt.Sprintf("+%v\r\n", value)), nil
+		return bulkString(value), nil
 	}
 
 	// Handle persist
@@ -749,12 +756,12 @@ func handleGetex(params internal.HandlerFuncParams) ([]byte, error) {
 	if exCommand == "PERSIST" {
 		// getValues will update key access so no need here
 		params.SetExpiry(params.Context, exkey, time.Time{}, false)
-		return []byte(fmt.Sprintf("+%v\r\n", value)), nil
+		return bulkString(value), nil
 	}
 
 	// Handle exipre command passed but no time provided
 	if cmdLen == 3 {
-		return []byte(fmt.Sprintf("+%v\r\n", value)), nil
+		return bulkString(value), nil
 	}
 
 	// Extract time
@@ -782,7 +789,7 @@ func handleGetex(params internal.HandlerFuncParams) ([]byte, error) {
 
 	params.SetExpiry(params.Context, exkey, expireAt, false)
 
-	return []byte(fmt.Sprintf("+%v\r\n", value)), nil
+	return bulkString(value), nil
 
 }
 
